@@ -225,7 +225,10 @@ class Interp:
                             out[k] = v
                 continue
             if lm is not None:
-                out[name] = self.lib.getattr(lm, a.name)
+                try:
+                    out[name] = self.lib.getattr(lm, a.name)
+                except OutOfReach:
+                    out[name] = Opaque(f"{mod}.{a.name} (not modelled)")
                 continue
             r = self._find_repo_module(rel, mod, n.level)
             if r is None:
